@@ -3259,7 +3259,8 @@ func (er *EVPNIPMSIRoute) DecodeFromBytes(data []byte) error {
 }
 
 func (er *EVPNIPMSIRoute) Serialize() ([]byte, error) {
-	buf := make([]byte, 20)
+	// RD(8) + ETag(4); the extended community is appended below
+	buf := make([]byte, 12)
 
 	if er.RD != nil {
 		tbuf, err := er.RD.Serialize()
@@ -3332,6 +3333,8 @@ func getEVPNRouteType(t uint8) (EVPNRouteTypeInterface, error) {
 		return &EVPNEthernetSegmentRoute{}, nil
 	case EVPN_IP_PREFIX:
 		return &EVPNIPPrefixRoute{}, nil
+	case EVPN_I_PMSI:
+		return &EVPNIPMSIRoute{}, nil
 	}
 	return nil, NewMessageError(BGP_ERROR_UPDATE_MESSAGE_ERROR, BGP_ERROR_SUB_MALFORMED_ATTRIBUTE_LIST, nil, fmt.Sprintf("Unknown EVPN Route type: %d", t))
 }
